@@ -11,6 +11,15 @@ use tower_lsp::lsp_types::Url;
 pub async fn save_dict(path: impl AsRef<Path>, dict: impl Dictionary) -> Result<()> {
     let path = path.as_ref();
 
+    // A destination without a file name (`/`, or one that ends in `..`) names a directory, not a
+    // dictionary: `with_file_name` would put the temporary file INSIDE that directory.
+    if path.file_name().is_none() {
+        return Err(std::io::Error::new(
+            std::io::ErrorKind::InvalidInput,
+            "The dictionary path does not name a file.",
+        ));
+    }
+
     if let Some(parent) = path.parent() {
         fs::create_dir_all(parent).await?;
     }
